@@ -598,9 +598,9 @@ where
                 return Err(CircuitBreakerError::OpenCircuit);
             }
 
-            let start = std::time::Instant::now();
+            let start = crate::circuit::clock_now();
             let result = inner.call(req).await;
-            let duration = start.elapsed();
+            let duration = crate::circuit::clock_now().duration_since(start);
 
             let mut circuit = circuit.lock().await;
             if config.failure_classifier.classify(&result) {
@@ -771,9 +771,9 @@ where
                 return fallback(req).await.map_err(CircuitBreakerError::Inner);
             }
 
-            let start = std::time::Instant::now();
+            let start = crate::circuit::clock_now();
             let result = inner.call(req).await;
-            let duration = start.elapsed();
+            let duration = crate::circuit::clock_now().duration_since(start);
 
             let mut circuit = circuit.lock().await;
             if config.failure_classifier.classify(&result) {
